@@ -127,7 +127,7 @@ def run_C01(run):
     run.validate_batch(tr, "paths-flowB")
 
 
-BASE_EXPR = dict(MaxNodes=1, UseCat=True, ElemNames={"a", "b"}, AttrNames=set(), TextVals={"1"}, WithComment=False, Parts=16)
+BASE_EXPR = dict(MaxNodes=1, UseCat=True, UseVal=False, ElemNames={"a", "b"}, AttrNames=set(), TextVals={"1"}, WithComment=False)
 
 
 def run_C02(run):
@@ -157,6 +157,28 @@ def run_C03(run):
     run.gen_and_replay("MC_Expr", consts(ec, Family="C03paren"), name="paren-nth", kind="sel-set")
 
 
+VAL_EXPR = consts(BASE_EXPR, UseCat=False, UseVal=True)
+
+
+def run_C07(run):
+    q = run.tier == "quick"
+    run.gen_and_replay("MC_Expr", consts(VAL_EXPR, Family="C07cmp"), name="cmp-matrix", kind="eval")
+    run.gen_and_replay("MC_Expr", consts(VAL_EXPR, Family="C07bool"), name="bool-ops", kind="eval")
+    run.gen_and_replay("MC_Expr", consts(VAL_EXPR, Family="C07pred"), name="cmp-as-predicate", kind="sel-set")
+
+
+def run_C08(run):
+    q = run.tier == "quick"
+    run.gen_and_replay("MC_Expr", consts(VAL_EXPR, Family="C08d1"), name="arith-depth1", kind="eval")
+    run.gen_and_replay("MC_Expr", consts(VAL_EXPR, Family="C08d2" if q else "C08d2big"), name="arith-depth2", kind="eval")
+
+
+def run_C09(run):
+    q = run.tier == "quick"
+    for fam in ("C09two", "C09one", "C09sub", "C09nest"):
+        run.gen_and_replay("MC_Expr", consts(VAL_EXPR, Family=fam), name="str-" + fam[3:], kind="eval")
+
+
 def replay_one(run, path):
     rec = json.load(open(path))
     m = rec["mismatch"]
@@ -183,4 +205,7 @@ PROPS = {
     "C01": {"run": run_C01},
     "C02": {"run": run_C02},
     "C03": {"run": run_C03},
+    "C07": {"run": run_C07},
+    "C08": {"run": run_C08},
+    "C09": {"run": run_C09},
 }
